@@ -113,6 +113,11 @@ def _match_fault(ev: dict) -> dict | None:
     """Return the first not-yet-fired fault whose selector matches this event."""
     for i, f in enumerate(JOB.get("faults", [])):
         if i in STATE["fired_idx"]:
+            # a persistent condition (disk stays full, directory stays read-only): every later operation of the
+            # classes that condition affects fails too
+            if f.get("sticky") and ev["op"] in _STICKY_OPS.get(f["kind"].split("_")[0], ()) and "crash" not in f["kind"]:
+                STATE["sticky_hits"] = STATE.get("sticky_hits", 0) + 1
+                return {"sel": f["sel"], "kind": f["kind"].split("_")[0] + "_" + ev["op"], "sticky_repeat": True}
             continue
         sel = f["sel"]
         if "event" in sel:
@@ -142,6 +147,16 @@ _ERRNOS = {
     "eio": _errno.EIO,
     "edquot": _errno.EDQUOT,
     "emfile": _errno.EMFILE,
+}
+
+
+_STICKY_OPS = {
+    "enospc": ("mkdir", "os_open", "write", "close"),
+    "edquot": ("mkdir", "os_open", "write", "close"),
+    "eio": ("write", "close"),
+    "eacces": ("mkdir", "open", "os_open", "utime"),
+    "erofs": ("mkdir", "open", "os_open", "utime"),
+    "emfile": ("open", "os_open"),
 }
 
 
@@ -654,6 +669,7 @@ def main() -> int:
     res["events"] = STATE["seq"]
     res["fired"] = STATE["fired"]
     res["readonly_hits"] = STATE["readonly_hits"]
+    res["sticky_hits"] = STATE.get("sticky_hits", 0)
     res["listings"] = STATE["listings"]
     res["hashed_modules"] = STATE["hash_counter"]
     res["hashseed_env"] = os.environ.get("PYTHONHASHSEED")
